@@ -29,7 +29,8 @@ def check(ctx):
     repo = ctx.repo
     for r, t in (("SIB-8", "python/numba twin agreement and dispatch order"),
                  ("PURE-kernel", "kernels never write or reorder the group slices in place"),
-                 ("SIB-9", "Numba NA test covers Float and NPDatetime like Vector.is_na")):
+                 ("SIB-9", "for every element kind use_numba() admits (scalar hierarchy / dtype.kind), the Numba NA test equals Vector.is_na's"),
+                 ("NJIT-optional", "no compiled kernel returns a list mixing element values with None (list(Optional(T)): compile-order dependent)")):
         ctx.rule(r, t)
     agg = repo.modules[A.AGG]
     sel = repo.fn(f"{A.AGG}.select")
